@@ -9,6 +9,7 @@ The HB module itself is validated on message-passing litmus programs (clean and 
 """
 import os
 import shutil
+import re
 import subprocess
 import sys
 
@@ -122,11 +123,36 @@ COMPONENTS = [
       ('MC_hb3.cfg', 'pipeline with throwing generator / sink / unlimited stage, two generator instances: exception slot, cancelled set, discarded / dropped / skipped items', 'quick'),
       ('MC_hb2.cfg', 'pipeline parallel (limit 2) and unlimited stages, every hand-over through the pool (never inline)', 'thorough'),
       ('MC_hb4.cfg', 'pipeline serial->unlimited->serial, 3 items on 2 workers, limit-2 sink with 3 items, throwing limit-2 middle stage', 'thorough')]),
+    ('pool', 'spec/pool',
+     ['ThreadPool.tla', 'PoolAbs.tla', 'PoolHB.tla', 'MCPoolHB.tla'] + ['MC_hb%d.cfg' % i for i in range(1, 9)] +
+     ['MC_hbx4.cfg', 'MC_hbx5.cfg', 'MC_hbx6.cfg', 'MC_hbr4.cfg'],
+     # (file order matters: the occurrence indices of PoolHB.tla assume thread_pool.h before thread_pool.cpp; OrdersComplete checks them)
+     ['thread_pool.h', 'thread_pool.cpp', 'thread_pool_wake.cpp', 'detail/thread_pool_wake.h', 'detail/epoch_waiter.h', 'mpmc_ring_buffer.h'],
+     'OrdersPool', 'MCPoolHB.tla',
+     [('MC_hb1.cfg', 'ThreadPool 1 worker: schedule(ForceQueuing) + inline-or-queued schedule, destructor join/drain', 'quick'),
+      ('MC_hb2.cfg', 'ThreadPool 1 worker: ring fast path (MPMC ring hand-over) + scheduleBulk via central queue', 'quick'),
+      ('MC_hb3.cfg', 'ThreadPool placed scheduling into a parked pool: claim, steal ring, re-wake, central fallback', 'thorough'),
+      ('MC_hb4.cfg', 'external submitter (fq + ring bulk) racing resize 0->1: first PoolWakeState, grown arenas', 'quick'),
+      ('MC_hb5.cfg', 'external placed submitter racing resize 0->1 (steal ring of the grown arena)', 'quick'),
+      ('MC_hb6.cfg', 'setSignalingWake (two resizes + enable store, 2nd PoolWakeState) racing a submitter', 'thorough'),
+      ('MC_hb7.cfg', '2 workers, 2 wake groups: ring fast path with cascade-wrapped tasks out of a parked pool', 'thorough'),
+      ('MC_hb8.cfg', '2 workers, 2 steal rings: placed submission, kernel wakes the unclaimed waiter', 'thorough'),
+      ('MC_hbr4.cfg', 'declared orders only: the ring objects of a grown arena are protected by the numRings_ release/acquire pair', 'quick')]),
 ]
 # components whose orders cannot be seen by bin/extract_orders.py (the order is a function parameter chosen at the call
 # sites): the Orders module comes from a generator in the component's spec directory with the same command line; it exits
 # non-zero when a source pattern it relies on is missing
 GENERATORS = {'graph': 'spec/graph/hbgen.py'}
+# a second generator run after the extractor: `<script> <work dir> <dispenso source dir>` writes a further Orders module
+# for orders that are reached through a helper function (pool: detail::consumeLoad(), PoolWakeState::totalSleeping())
+POST_GENERATORS = {'pool': 'spec/pool/hbgen.py'}
+# STRICT configurations: exactly the declared orders.  The pool's other configurations count the load inside
+# detail::consumeLoad() (relaxed + a TSan annotation, "semantically equivalent to memory_order_consume") as a consume load,
+# i.e. they grant the dependency ordering the comment in thread_pool.h claims; the strict ones do not, and a RaceFree
+# violation on the PoolWakeState object there is the known finding `model:pool:consume-load` (anything else is reported)
+STRICT = {'pool': [('MC_hbx5.cfg', 'declared orders only: external placed submitter racing resize 0->1', 'quick'),
+                   ('MC_hbx4.cfg', 'declared orders only: external fq + ring-bulk submitter racing resize 0->1', 'thorough'),
+                   ('MC_hbx6.cfg', 'declared orders only: setSignalingWake racing a submitter', 'thorough')]}
 # components whose code uses std::atomic_thread_fence: composed with spec/lib/MemOrderF.tla.  `tentative` cfgs additionally
 # count the discarded tentative reads of losing stealers: a violation there is replayed on the real deque and reported
 # (known finding: the formal race of Chase-Lev with plain slots).
@@ -176,6 +202,14 @@ def run(ctx):
         if p.returncode != 0:
             raise vlib.ToolError('extract_orders failed for %s: %s' % (comp, p.stdout[-2000:]))
         extracted[comp] = open(os.path.join(wd, ordmod + '.tla')).read()
+        if comp in POST_GENERATORS:
+            p = subprocess.run([sys.executable, os.path.join(vlib.ROOT, POST_GENERATORS[comp]), wd, os.path.join(vlib.REPO, 'dispenso')],
+                               stdout=subprocess.PIPE, stderr=subprocess.STDOUT, text=True)
+            if p.returncode != 0:
+                raise vlib.ToolError('%s failed for %s (a source pattern the overlay relies on is gone): %s'
+                                     % (POST_GENERATORS[comp], comp, p.stdout[-2000:]))
+            extracted[comp] += '\n' + '\n'.join(open(os.path.join(wd, f)).read() for f in sorted(os.listdir(wd))
+                                                 if f.startswith('Orders') and f != ordmod + '.tla')
         for cfg, label, tier in cfgs:
             if tier == 'thorough' and not thorough:
                 continue
@@ -187,6 +221,31 @@ def run(ctx):
                 path = ctx.save_replay('C10-%s-%s.txt' % (comp, cfg.replace('.cfg', '')),
                                        'component %s, %s\nTLC: %s\n\nmemory orders extracted from the working tree:\n%s\n\n%s'
                                        % (comp, label, r.violation, extracted[comp], r.counterexample()))
+                ctx.violation('model:%s:%s:%s' % (comp, cfg, r.violation), WHAT + ' [' + label + ']: ' + r.violation, path)
+    # 2b. strict configurations (declared orders only)
+    for comp, cfgs in STRICT.items():
+        wd = os.path.join(ctx.work, comp)
+        mcmod = [e for e in COMPONENTS if e[0] == comp][0][5]
+        for cfg, label, tier in cfgs:
+            if tier == 'thorough' and not thorough:
+                continue
+            r = ctx.tlc(wd, mcmod, cfg, workers=6, label=label, timeout=1500)
+            ctx.cov.setdefault('strict_models', []).append({'cfg': cfg, 'violation': r.violation, 'states': r.distinct})
+            if not r.violation:
+                continue
+            cex = r.counterexample()
+            races = re.findall(r'race \|-> \{(.*?)\}', cex, flags=re.S)
+            last = races[-1] if races else ''
+            locs = set(re.findall(r'<<"(\w+)"', last))
+            path = ctx.save_replay('C10-%s-%s.txt' % (comp, cfg.replace('.cfg', '')),
+                                   'component %s, %s\nTLC: %s\nracing locations: %s\n\nmemory orders extracted from the working tree:\n%s\n\n%s'
+                                   % (comp, label, r.violation, last.strip(), extracted[comp], cex))
+            if r.violation == 'Invariant RaceFree' and locs and locs <= {'ws'}:
+                ctx.violation('model:%s:consume-load' % comp,
+                              WHAT + ': the PoolWakeState object built by resize()/setSignalingWake() is published with a release '
+                              'store of wakeState_ but read through detail::consumeLoad() = a RELAXED load (+ TSan annotation); under '
+                              'the declared orders a concurrently submitting thread has no happens-before edge to the construction [' + label + ']', path)
+            else:
                 ctx.violation('model:%s:%s:%s' % (comp, cfg, r.violation), WHAT + ' [' + label + ']: ' + r.violation, path)
     # 3. ChaseLevDeque: the discarded tentative slot reads of losing stealers
     for cfg, cap, prog, tier in tentative.get('chaselev', []):
